@@ -731,8 +731,8 @@ fn main() {
                 &rel,
                 "PortableHash",
                 &["new", "zipper_merge_and_add", "update", "permute", "permute_and_update", "module_reduction", "rotate_32_by",
-                  "update_lanes", "update_remainder", "finalize64", "finalize128", "finalize256"],
-                &["buffer.len", "buffer.as_slice", "remainder", "data_to_lanes"],
+                  "update_lanes", "data_to_lanes", "remainder", "update_remainder", "finalize64", "finalize128", "finalize256"],
+                &["buffer.len", "buffer.as_slice"],
             );
             write_if_changed(&format!("{}/SrcPortable.v", out_dir), &v);
         }
